@@ -75,7 +75,41 @@ def run(rep, kf, tier, seed):
                 o._name = n
             return r, n
         tasks.append(task)
+    # names the templates derive from a property's own name: a sibling spelled like one of them
+    pats, base_doc = cf.derived_patterns()
+    ddoc, dmodels = cf.derived_document(pats, base_doc)
+    dpkg = fragments.generate_package(ddoc)
+    dcomps = ddoc["components"]["schemas"]
+    rep.extra["derived_name_patterns"] = sorted(pats)
+    FINDING2 = "C18-K2-derived-names-captured"
+    known_pats = set((kf.get(FINDING2) or {}).get("patterns", []))
+    for cname, pat, kind, order in dmodels:
+        def dtask(cname=cname, pat=pat, kind=kind, order=order):
+            r = core.Report("C18", tier, seed)
+            modname = utils.snake_case(cname)
+            try:
+                dpkg.module(f"models.{modname}")
+            except Exception as e:  # noqa
+                if not any(cname in (er.header or "") + (er.detail or "") for er in dpkg.errors):
+                    r.add(core.Obligation(id=f"C18.F.derived[{pat}].{kind}.{order}.importable", props=["C18", "C01"],
+                                          unit=f"model with a {kind} property and a sibling spelled {pat.format('base')!r}",
+                                          backend="native import", status=core.REFUTED,
+                                          detail=f"the generated module does not import: {type(e).__name__}: {e}"))
+                return r, ("derived", pat)
+            c = mf.roundtrip_contract(dpkg, dcomps, cname, modname, f"derived[{pat}].{kind}.{order}")
+            for case in c.cases:
+                case.props = ["C18"]
+                case.pool = None
+            engine_b.discharge(r, kf, [c], "C18", tier, seed)
+            for o in r.obligations:
+                o.id = o.id.replace(".B.", ".F.")
+                o.unit = f"templates as rendered for a {kind} property next to a sibling spelled like the derived name {pat.format('<name>')!r}"
+                o.where = "openapi_python_client/templates/"
+                o.backend = "z3 (fragment rendered by the real templates)"
+            return r, ("derived", pat)
+        tasks.append(dtask)
     failing = {}
+    failing_pats = {}
     try:
         results = core.run_parallel(tasks)
     finally:
@@ -85,6 +119,33 @@ def run(rep, kf, tier, seed):
             r, n = res
         else:
             r, n = res, None
+        if isinstance(n, tuple) and n[0] == "derived":
+            pat = n[1]
+            und = [o for o in r.obligations if o.status == core.UNDECIDED]
+            if und:
+                # undecided (typically "use of <x> after a generically executed loop", which is what a capture by a loop
+                # variable looks like): the real generated code decides, natively
+                from pyvc import fragnative
+                import re as _re
+                m = _re.search(r"derived\[(.*?)\]\.(.*?)\.(after|before)\.", und[0].id)
+                why = fragnative.derived_violation(m.group(1), m.group(2), m.group(3)) if m else "cannot identify the case"
+                for o in und:
+                    if why:
+                        o.status = core.REFUTED
+                        o.detail = f"native run: {why[:300]}   [engine: {o.detail[:120]}]"
+                        o.witness = {"kind": "call", "qualname": "pyvc.fragnative:derived_violation", "args": [],
+                                     "kwargs": {"pattern": m.group(1), "kind": m.group(2), "order": m.group(3)}, "violates": "result is not None"}
+                    else:
+                        o.status = core.PROVED
+                        o.detail = f"decided natively on all small instances (bounded): {o.detail[:100]}"
+            bad = [o for o in r.obligations if o.status == core.REFUTED]
+            if bad:
+                failing_pats.setdefault(pat, []).extend(o.id for o in bad)
+                if pat in known_pats:
+                    for o in bad:
+                        o.findings = [FINDING2]
+            rep.merge(r)
+            continue
         bad = [o for o in r.obligations if o.status == core.REFUTED]
         und = [o for o in r.obligations if o.status == core.UNDECIDED]
         if und and n is not None:
@@ -114,6 +175,16 @@ def run(rep, kf, tier, seed):
         else:
             for o in rep.obligations:
                 if o.findings == [FINDING]:
+                    o.findings = []
+    rep.extra["capturing_derived_patterns"] = sorted(failing_pats)
+    e2 = kf.get(FINDING2)
+    if e2 is not None and any(p in known_pats for p in failing_pats):
+        from pyvc.core import run_native
+        if run_native(e2["replay"]).get("violates"):
+            rep.known_lines.append((FINDING2, e2["what"] + " Patterns: " + ", ".join(sorted(p for p in failing_pats if p in known_pats))))
+        else:
+            for o in rep.obligations:
+                if o.findings == [FINDING2]:
                     o.findings = []
     rep.functions = {k: v for k, v in rep.functions.items() if not k.startswith("pyvcfrag_")}
     template_hashes(rep)
